@@ -215,12 +215,27 @@ def probes(f, paths, dump=None):
                 info = ("G", len(g), tuple(sorted(g.keys())), g.name, tuple(sorted(iter(g))))
             else:
                 info = ("D", g.name, val_repr(g[()]))
-            info = info + (g.parent.name,)
+            par = g.parent
+            info = info + (par.name, tuple(sorted(par.keys())), attrs_repr(par))
         out.append((p, bool(inn), inn_rel, g is not None, info))
     # visit (names only)
     names = []
     f.visit(lambda n: names.append(n))
-    return (tuple(out), tuple(sorted(names)), len(f))
+    # a callback result other than None ends the walk and is handed back - also a falsy one
+    early = []
+    for ret in (0, False, ""):
+        calls = []
+
+        def cb(n, o=None, ret=ret, calls=calls):
+            calls.append(n)
+            return ret
+
+        r1 = f.visit(cb)
+        n1 = len(calls)
+        del calls[:]
+        r2 = f.visititems(cb)
+        early.append((repr(r1), n1, repr(r2), len(calls)))
+    return (tuple(out), tuple(sorted(names)), len(f), tuple(early))
 
 
 def observe(f, paths):
